@@ -62,7 +62,13 @@ def main():
             return ok, out[-1500:]
         if demo in ("demo.sh", "demo.py"):
             interp = "bash" if demo == "demo.sh" else "python3"
-            rc, out = sh(["bash", "-c", f"{interp} {mutdir}/{demo} {wt} 2>&1 | tail -40; exit ${{PIPESTATUS[0]}}"], cwd=wt)
+            arg = wt
+            text = open(f"{mutdir}/{demo}").read()
+            if demo == "demo.py" and "abasic-lsp" in text and "sys.argv[1]" in text and "target/debug/abasic-lsp\"" in text:
+                # the demo takes the server binary: build the (possibly patched) workspace first
+                sh("cargo build --workspace --offline 2>&1 | tail -3", cwd=wt, env=ENV)
+                arg = f"{wt}/target/debug/abasic-lsp"
+            rc, out = sh(["bash", "-c", f"{interp} {mutdir}/{demo} {arg} 2>&1 | tail -40; exit ${{PIPESTATUS[0]}}"], cwd=wt)
             return rc == 0, out[-1500:]
         return None, "no demo"
 
